@@ -10,7 +10,7 @@ open Gen.Algo Trav Py Vol C14 RefineTravFront RefineVolume
 
 section front
 variable {K : Type} [Inhabited K] [Add K] [Sub K] [Mul K] [OfNat K 0] [OfNat K 1] [LT K] [DecidableLT K] [LE K] [DecidableLE K]
-variable (volSphere : Int → K) (volFrustum : Int × Int → K) (volSF : Int → Int × Int → K) (volPairs : Int → List (Int × Int) → K) (volMC : K)
+variable (volSphere : Int → K) (volFrustum : Int × Int → K) (volSF : Int → Int × Int → K) (volPairs : Int → List (Int × Int) → K) (mcScene : List Py.Shape → K)
 
 def assertionError : Py.Exc := ⟨"AssertionError", "", []⟩
 def keyError : Py.Exc := ⟨"KeyError", "", []⟩
@@ -20,21 +20,21 @@ def unsupportedMethod : Py.Exc := ⟨"ValueError", "Unsupported method: {method}
 `1 … 10` (checked first); otherwise `ValueError("Unsupported method: …")` exactly when `method` is not `"frustum_cone"`; otherwise whatever the
 generated `_get_volume_frustum_cone` does on the same tree at that accuracy (same fuel) -/
 theorem get_volume_int_eq (fuel : Nat) (ids pids : List Int) (method : String) (acc : Int) :
-    get_volume_int volSphere volFrustum volSF volPairs volMC fuel ids pids method acc
+    get_volume_int volSphere volFrustum volSF volPairs mcScene fuel ids pids method acc
       = if ¬ (0 < acc ∧ acc ≤ 10) then some (.error assertionError)
         else if method ≠ "frustum_cone" then some (.error unsupportedMethod)
-        else (get_volume_frustum_cone volSphere volFrustum volSF volPairs volMC fuel ids pids acc).map .ok := by
+        else (get_volume_frustum_cone volSphere volFrustum volSF volPairs mcScene fuel ids pids acc).map .ok := by
   by_cases h1 : 0 < acc <;> by_cases h2 : acc ≤ 10 <;> by_cases hm : method = "frustum_cone" <;>
     simp [get_volume_int, get_volume_int.body, Py.seq, Py.skip, Py.raise, Py.finishX, Py.bind, h1, h2, hm, assertionError, unsupportedMethod] <;>
-    cases get_volume_frustum_cone volSphere volFrustum volSF volPairs volMC fuel ids pids acc <;> simp [Py.finishX]
+    cases get_volume_frustum_cone volSphere volFrustum volSF volPairs mcScene fuel ids pids acc <;> simp [Py.finishX]
 
 /-- **`get_volume` with a string accuracy, EVERY input**: `KeyError` exactly when the string is no key of the table read from the source
 (checked before everything else); otherwise `get_volume` at the integer the table gives -/
 theorem get_volume_str_eq (fuel : Nat) (ids pids : List Int) (method : String) (acc : String) :
-    get_volume_str volSphere volFrustum volSF volPairs volMC fuel ids pids method acc
+    get_volume_str volSphere volFrustum volSF volPairs mcScene fuel ids pids method acc
       = match Py.strLookup [("low", 3), ("middle", 5), ("high", 8)] acc with
         | none => some (.error keyError)
-        | some a => get_volume_int volSphere volFrustum volSF volPairs volMC fuel ids pids method a := by
+        | some a => get_volume_int volSphere volFrustum volSF volPairs mcScene fuel ids pids method a := by
   rw [get_volume_str]
   simp only [get_volume_str.body, Py.seq, Py.bindOrRaise]
   cases h : Py.strLookup [("low", 3), ("middle", 5), ("high", 8)] acc with
@@ -43,7 +43,7 @@ theorem get_volume_str_eq (fuel : Nat) (ids pids : List Int) (method : String) (
     simp only [get_volume_int_eq]
     by_cases h1 : 0 < a <;> by_cases h2 : a ≤ 10 <;> by_cases hm : method = "frustum_cone" <;>
       simp [Py.seq, Py.skip, Py.raise, Py.finishX, Py.bind, h1, h2, hm, assertionError, unsupportedMethod] <;>
-      cases get_volume_frustum_cone volSphere volFrustum volSF volPairs volMC fuel ids pids a <;> simp [Py.finishX]
+      cases get_volume_frustum_cone volSphere volFrustum volSF volPairs mcScene fuel ids pids a <;> simp [Py.finishX]
 
 /-- the three names and what they select; every other string is no key -/
 theorem accuracy_names :
